@@ -436,6 +436,19 @@ func unownedSources(ctx *core.Ctx) []string {
 	return out
 }
 
+// siteClass abstracts a seam site "file:function:expression" to "the order in which a map is visited in <file>" /
+// "the clock read in <file>".
+func siteClass(site string) string {
+	p := strings.SplitN(site, ":", 3)
+	if len(p) < 3 {
+		return site
+	}
+	if strings.HasPrefix(p[2], "range ") {
+		return "the order in which a map is visited in " + p[0]
+	}
+	return "the clock read in " + p[0]
+}
+
 // orderDependent: the explorer enumerated more than one outcome for (program, target).
 func orderDependent(enumerated *sync.Map, prog, lang string) bool {
 	v, ok := enumerated.Load(prog + "|" + lang)
@@ -588,7 +601,13 @@ func c13Explore(ctx *core.Ctx, name, text, lang string, st *c13Stats, fullPerm, 
 			if !strings.Contains(key, "range ") {
 				suffix = ""
 			}
-			ctx.Report(fmt.Sprintf("%s output depends on the choice at %s%s", lang, key, suffix), f.detail, f.replay)
+			// the signature names the kind of choice and the file, not the function or the expression: renaming a
+			// function or a variable must not turn a recorded finding into a new alarm (the exact sites are in the detail)
+			var cls []string
+			for _, s := range f.sites {
+				cls = append(cls, siteClass(s))
+			}
+			ctx.Report(fmt.Sprintf("%s output depends on %s%s", lang, strings.Join(uniq(cls), " + "), suffix), "choice points: "+key+"\n"+f.detail, f.replay)
 		}
 	}
 	// reduced alternatives: detect from the recorded points of the base run
